@@ -415,8 +415,21 @@ class AnsiString:
                         del settings_point.rem[i]
 
                 if idx == end:
-                    if end != len(self._s):
-                        settings_point.add += removed_settings
+                    if end != len(self._s) and removed_settings:
+                        # Re-apply the removed settings at their original precedence. current_settings still holds
+                        # the original order here because a point is only modified after it was iterated over.
+                        continuing = current_settings[:len(current_settings) - len(settings_point.add)]
+                        first = min(
+                            (i for i, s in enumerate(continuing)
+                             if __class__._find_setting_reference(s, removed_settings) >= 0),
+                            default=len(continuing)
+                        )
+                        # Anything that originally came after a re-applied setting needs to be restarted after it
+                        settings_point.rem += [
+                            s for s in continuing[first:]
+                            if __class__._find_setting_reference(s, removed_settings) < 0
+                        ]
+                        settings_point.add[:0] = continuing[first:]
                 else:
                     for i in reversed(range(len(settings_point.add))):
                         if ansi_settings is None or settings_point.add[i] in ansi_settings:
